@@ -287,6 +287,20 @@ def rule_r3(repo, run):
                     run.fail(R, "%s.%s:%s" % (m.name, getattr(fn, "_qualname", "<module>"), d),
                              "reads %s" % d, m.loc(node))
     run.floor(R, "imports/open/calls inspected", n, 40)
+    # the current directory is searched for input files only when no --path was given
+    mm = repo.module("main")
+    f = mm.func("main_with_args")
+    dots = [a for a in ast.walk(f) if isinstance(a, ast.Assign) and isinstance(a.value, (ast.List, ast.Tuple))
+            and any(pyflow.const_str(e) in (".", "./", "") for e in a.value.elts)]
+    for a in dots:
+        tests = [(mm.seg(t), pol) for t, pol in pyflow.dominating_tests(a, stop=f)]
+        ok = any(t == "args.path" and not pol for t, pol in tests)
+        run.check(R, "main.main_with_args:%s=cwd" % (pyflow.dotted(a.targets[0]) or "?"), ok,
+                  "the current directory is put on the file search path unconditionally (guards: %s): with the same "
+                  "absolute arguments the files that are read depend on where the process was started" % tests,
+                  mm.loc(a), sample=dict(assign=mm.seg(a), guards=tests))
+    if not dots:
+        raise AnalysisError("C07.R3: default search path of main_with_args not found")
 
 
 # ---------------------------------------------------------------------------
